@@ -174,4 +174,8 @@ HasDecoysFlag == Done => (hasDecoys <=> \E p, r \in Retained : ~HasPrefix(nm[p])
 \* behaviour generation: one case per incidence structure
 EmitCase == pc = "pair" => PrintT(<<"CASE", peps>>)
 GenOnly == pc = "pair"
+\* ---- liveness (checked by ProteinGroups_live.cfg): under weak fairness of the next-state action every behaviour comes to rest
+\* in a state without successor -- the modelled procedure terminates for every input, schedule and fault inside the bounds
+FairSpec == Spec /\ WF_vars(Next)
+Halts == <>[](~ENABLED Next)
 =============================================================================
